@@ -930,6 +930,16 @@ impl Compiler {
         // Jump to finally (if exists) or end
         let jump_after_try = self.builder.emit_jump();
 
+        // When the catch body runs, the VM has popped this statement's handler - unless
+        // there is a finally block, for which it keeps a finally-only handler.  The
+        // compile-time depth must say the same, or a loop inside the catch/finally body
+        // computes the wrong try depth for its break/continue.
+        let mut depth_held = true;
+        if try_stmt.finalizer.is_none() {
+            self.try_depth -= 1;
+            depth_held = false;
+        }
+
         // Catch handler
         let catch_start = self.builder.current_offset();
         if let Some(handler) = &try_stmt.handler {
@@ -971,6 +981,11 @@ impl Compiler {
 
         // Jump to finally (if exists) or end
         let jump_after_catch = self.builder.emit_jump();
+
+        // The finally block runs with this statement's handler already popped
+        if depth_held {
+            self.try_depth -= 1;
+        }
 
         // Finally handler
         let finally_start = self.builder.current_offset();
@@ -1018,8 +1033,6 @@ impl Compiler {
                 0
             },
         );
-
-        self.try_depth -= 1;
 
         Ok(())
     }
